@@ -245,6 +245,36 @@ fn unicodeify(src: &str) -> String {
     out
 }
 
+/// (viii) long chains of binary operators (20-64 operands), nested to the left, to the right or flat,
+/// over operands of one kind or of clashing kinds: the checker has special cases for `+` (strings,
+/// lists) and `/` (prefixes) in front of the arithmetic ones, and whatever it does per operator it
+/// does along the whole chain.
+fn operator_chain(c: &mut Choices) -> String {
+    let n = 20 + c.below(45);
+    let pools: [&[&str]; 6] = [&["1", "2", "x", "30"], &["1.5", "y", "0.25"], &["\"a\"", "s", "\"\""], &["[1]", "l", "[]"], &["1.2.3.4", "ip"], &["1", "\"a\"", "true", "x", "s"]];
+    let pool = pools[c.below(pools.len())];
+    let ops: &[&str] = match c.below(5) {
+        0 => &["+"],
+        1 => &["/"],
+        2 => &["+", "-", "*", "/"],
+        3 => &["+", "/"],
+        _ => &["-", "*", "%"],
+    };
+    let shape = c.below(3);
+    let mut e = pool[c.below(pool.len())].to_string();
+    for _ in 1..n {
+        let o = ops[c.below(ops.len())];
+        let t = pool[c.below(pool.len())];
+        e = match shape {
+            0 => format!("{e} {o} {t}"),
+            1 => format!("{t} {o} ({e})"),
+            _ => format!("({e}) {o} {t}"),
+        };
+    }
+    let ann = ["", ": i32", ": f64", ": String", ": List[i32]", ": Prefix", ": u8"][c.below(7)];
+    format!("fn zz_chain(x: i32, y: f64, s: String, l: List[i32], ip: IpAddr) {{\n    let v{ann} = {e};\n}}\n")
+}
+
 /// (vii) duplicate declarations and self-referential inference: shapes that are errors (or
 /// harmless) by the language rules and historically sit next to unwraps in the checker
 fn knots_and_duplicates(c: &mut Choices) -> String {
@@ -521,12 +551,14 @@ impl W {
         let n_files = if c.chance(40) { 2 + c.below(2) } else { 1 };
         let mut files = Vec::new();
         for fi in 0..n_files {
-            let kind = c.below(17);
+            let kind = c.below(18);
             let uni = c.chance(100);
             let text = if kind < 3 {
                 token_soup(&mut c)
             } else if kind == 12 || kind == 13 {
                 decl_graph(&mut c)
+            } else if kind == 17 {
+                operator_chain(&mut c)
             } else if kind == 14 {
                 import_soup(&mut c)
             } else if kind == 15 || kind == 16 {
